@@ -1436,7 +1436,12 @@ def _put_one_Constant_value(
 ) -> fst.FST:
     """Set a `Constant` value, mostly normal unless its a child of a `JoinedStr` or `TemplateStr`."""
 
-    if not ((parent := self.parent) and parent.a.__class__ in (JoinedStr, TemplateStr)):
+    if not ((parent := self.parent) and (parent_cls := parent.a.__class__) in (JoinedStr, TemplateStr)):
+        if (parent and parent_cls is MatchValue
+            and ((v := code_as_constant(code, options, self.root._parse_params)) is True or v is False or v is None)
+        ):
+            raise NodeError('cannot put True, False or None to MatchValue Constant.value, that would be a MatchSingleton')  # `case True:` is not a MatchValue
+
         return _put_one_constant(self, code, idx, field, child, static, options)
 
     raise NotImplementedError('put Constant.value which is in JoinedStr/TemplateStr.values')
